@@ -89,6 +89,11 @@ theorem truncate_noallow (dg : Bytes) (hne : dg ≠ []) (bl : Nat) (order : Int)
   · have : ¬ ((dg.length : Int) > (bl : Int)) := by exact_mod_cast h
     simp [h, this]
 
+/-- the excluded input: an EMPTY digest makes `int(b"", 16)` raise `ValueError`, with either flag -/
+theorem truncate_empty (bl : Nat) (order : Int) (allow : Bool) :
+    truncateAndConvertDigest [] bl order allow = .error .valueError := by
+  cases allow <;> simp [truncateAndConvertDigest, Gen.Ecdsa.truncate_too_long, Util.stringToNumber, bind, Except.bind]
+
 /-- when the digest has no more bits than the order, the leftmost-bits integer is the digest itself -/
 theorem leftmostBits_short (dg : Bytes) (blen : Nat) (h : 8 * dg.length ≤ blen) : leftmostBits dg blen = beVal dg := by
   rw [leftmostBits_eq, Nat.min_eq_left h]; simp
